@@ -121,3 +121,20 @@ Theorem C07_accepted_response_is_that_sessions :
     \/ Bad (hash CS).
 Proof. exact @accepted_response_is_that_sessions. Qed.
 Print Assumptions C07_accepted_response_is_that_sessions.
+
+(* distinct completed sessions have distinct session keys: equal keys force equal transcripts - the same client
+   nonce and key share (inside the request), the same server nonce and key share - or a collision is exhibited;
+   nonces of different sessions are copies of different tape ranges (C17) *)
+From OKE Require Import Freshness.
+Theorem C07_equal_session_keys_equal_nonces :
+  forall E Sc Pk Sk (CS : Suite E Sc Pk Sk), HashLaws (hash CS) ->
+  forall a b c sk km2 km3 hs a' b' c' sk' km2' km3' hs'
+         ctx u req s l2 n e pre ctx' u' req' s' l2' n' e' pre' iu is_ iu' is_',
+    lenprefix 2 iu = Some u -> lenprefix 2 is_ = Some s -> lenprefix 2 iu' = Some u' -> lenprefix 2 is_' = Some s' ->
+    length req = length req' -> length l2 = length l2' -> length n = length n' ->
+    preamble ctx u req s l2 n e = Ok pre -> preamble ctx' u' req' s' l2' n' e' = Ok pre' ->
+    derive_3dh_keys CS a b c (h_hash (hash CS) pre) = Ok (sk, km2, km3, hs) ->
+    derive_3dh_keys CS a' b' c' (h_hash (hash CS) pre') = Ok (sk', km2', km3', hs') ->
+    sk = sk' -> (req = req' /\ n = n' /\ e = e') \/ Bad (hash CS).
+Proof. exact @equal_session_keys_equal_nonces. Qed.
+Print Assumptions C07_equal_session_keys_equal_nonces.
